@@ -54,6 +54,14 @@ theorem RelFamily.ok_congr (f : RelFamily) {l1 l2 : String → List Nat → Unit
   unfold RelFamily.ok; rw [this]
 
 def relFamilies : List RelFamily := [
+  -- integer element types (traced at int32 and uint32)
+  { fn := "iabs", sUnit := "s_iabs", vUnit := "v_iabs", arity := 1, masks := [1] },
+  { fn := "imin", sUnit := "s_imin", vUnit := "v_imin", arity := 2, masks := [3, 1] },
+  { fn := "imax", sUnit := "s_imax", vUnit := "v_imax", arity := 2, masks := [3, 1] },
+  { fn := "iclamp", sUnit := "s_iclamp", vUnit := "v_iclamp", arity := 3, masks := [7, 1] },
+  { fn := "umin", sUnit := "s_umin", vUnit := "v_umin", arity := 2, masks := [3, 1] },
+  { fn := "umax", sUnit := "s_umax", vUnit := "v_umax", arity := 2, masks := [3, 1] },
+  { fn := "uclamp", sUnit := "s_uclamp", vUnit := "v_uclamp", arity := 3, masks := [7, 1] },
   { fn := "abs", sUnit := "s_abs", vUnit := "v_abs", arity := 1, masks := [1] },
   { fn := "sign", sUnit := "s_sign", vUnit := "v_sign", arity := 1, masks := [1] },
   { fn := "floor", sUnit := "s_floor", vUnit := "v_floor", arity := 1, masks := [1] },
@@ -131,8 +139,33 @@ def f_rel_notEqual : Family :=
   { name := "rel_notEqual", kind := .syn, treeMode := true, keys := lens, nOut := k0, spec := fun _ _ => zero,
     specT := fun k j => .branch (.eq (v j) (v (k0 k + j))) (.leaf zero) (.leaf one) }
 
+/-! integer operators (`int32` with prefix `i`, `uint32` with prefix `u`): the built-in operator per component, for every
+    vector/scalar operand combination; `+ * & | ^` are commutative (operands may be exchanged), the others literal -/
+def intKeys : List (List Nat) := opKeys [3, 1, 2] [1, 2, 3, 4]
+def mkIntOp (pre n : String) (kind : Kind) (op : E → E → E) : Family :=
+  { name := pre ++ "op_" ++ n, kind := kind, keys := intKeys, nOut := k1, spec := fun k j => op (opnd (k0 k) (k1 k) 0 j) (opnd (k0 k) (k1 k) 1 j) }
+def f_iop_add : Family := mkIntOp "i" "add" .poly .add
+def f_iop_sub : Family := mkIntOp "i" "sub" .syn .sub
+def f_iop_mul : Family := mkIntOp "i" "mul" .poly .mul
+def f_iop_and : Family := mkIntOp "i" "and" .syn .band
+def f_iop_or : Family := mkIntOp "i" "or" .syn .bor
+def f_iop_xor : Family := mkIntOp "i" "xor" .syn .bxor
+def f_iop_shl : Family := mkIntOp "i" "shl" .syn .shl
+def f_iop_shr : Family := mkIntOp "i" "shr" .syn .shr
+def f_uop_add : Family := mkIntOp "u" "add" .poly .add
+def f_uop_sub : Family := mkIntOp "u" "sub" .syn .sub
+def f_uop_mul : Family := mkIntOp "u" "mul" .poly .mul
+def f_uop_and : Family := mkIntOp "u" "and" .syn .band
+def f_uop_or : Family := mkIntOp "u" "or" .syn .bor
+def f_uop_xor : Family := mkIntOp "u" "xor" .syn .bxor
+def f_uop_shl : Family := mkIntOp "u" "shl" .syn .shl
+def f_uop_shr : Family := mkIntOp "u" "shr" .syn .shr
+def f_iop_neg : Family := { name := "iop_neg", kind := .syn, keys := lens, nOut := k0, spec := fun _ j => .neg (v j) }
+def f_iop_not : Family := { name := "iop_not", kind := .syn, keys := lens, nOut := k0, spec := fun _ j => .bnot (v j) }
+
 def families : List Family :=
   [f_op_add, f_op_sub, f_op_mul, f_op_div, f_asg_add, f_asg_sub, f_asg_mul, f_asg_div, f_op_neg, f_op_preinc, f_op_postdec,
-   f_rel_lessThan, f_rel_lessThanEqual, f_rel_greaterThan, f_rel_greaterThanEqual, f_rel_equal, f_rel_notEqual]
+   f_rel_lessThan, f_rel_lessThanEqual, f_rel_greaterThan, f_rel_greaterThanEqual, f_rel_equal, f_rel_notEqual,
+   f_iop_add, f_iop_sub, f_iop_mul, f_iop_and, f_iop_or, f_iop_xor, f_iop_shl, f_iop_shr, f_uop_add, f_uop_sub, f_uop_mul, f_uop_and, f_uop_or, f_uop_xor, f_uop_shl, f_uop_shr, f_iop_neg, f_iop_not]
 
 end Glm.Spec.C01
